@@ -70,6 +70,9 @@ func genPlan(t *rapid.T) plan {
 		}
 	}
 	kinds := []string{"mktopic", "mktopic", "addparts", "sleep", "sleep"}
+	if p.Brokers > 1 {
+		kinds = append(kinds, "move", "move") // leader moves: cursors migrate between sources, epochs are re-validated
+	}
 	switch p.Mode {
 	case "topics":
 		kinds = append(kinds, "addtopic", "addtopic", "purge", "deltopic", "rmpart")
@@ -103,7 +106,7 @@ type returned struct {
 func TestConsumesExactlySelected(t *testing.T) {
 	rapid.Check(t, func(rt *rapid.T) {
 		p := genPlan(rt)
-		var nRemoved, nLate, nRmInTopics int
+		var nRemoved, nLate, nRmInTopics, nMoves int
 		bubble.Run(t, rt, func(e *bubble.Env) {
 			seed := map[string]int32{}
 			exists := map[string]int32{} // topic -> partition count (existing topics)
@@ -269,6 +272,14 @@ func TestConsumesExactlySelected(t *testing.T) {
 				n := p.Names[s.Topic]
 				lock <- struct{}{}
 				switch s.Kind {
+				case "move":
+					if _, ok := exists[n]; ok {
+						err := e.Cluster.MoveTopicPartition(n, s.Part, int32(s.N%p.Brokers))
+						e.Log.Add("move", int64(s.Part), n, err, int64(s.N%p.Brokers), 0)
+						if err == nil {
+							nMoves++
+						}
+					}
 				case "mktopic":
 					mk(s.Topic)
 				case "addparts":
@@ -436,6 +447,12 @@ func TestConsumesExactlySelected(t *testing.T) {
 		}
 		if nRmInTopics > 0 {
 			ev.Class("remove-partition-of-ConsumeTopics-topic")
+		}
+		if nMoves > 0 {
+			ev.Class("leader-moved")
+		}
+		if nMoves > 0 && nRemoved > 0 {
+			ev.Class("leader-moved-and-removal")
 		}
 		ev.SampleIf(func() any { return map[string]any{"mode": p.Mode, "steps": ks, "init": p.Init, "seeded": p.Seeded} })
 	})
